@@ -83,6 +83,31 @@ class CallGraph:
                     out.append(g)
         return out
 
+    @staticmethod
+    def _accepts(c: FunctionInfo, call: ast.Call) -> bool:
+        a = c.node.args
+        if any(isinstance(x, ast.Starred) for x in call.args) or any(k.arg is None for k in call.keywords):
+            return True
+        pos = [x.arg for x in a.posonlyargs + a.args]
+        if pos and not c.is_staticmethod:
+            pos = pos[1:]  # self / cls
+        npos = len(call.args)
+        if npos > len(pos) and a.vararg is None:
+            return False
+        names = set(pos) | {x.arg for x in a.kwonlyargs}
+        for k in call.keywords:
+            if k.arg not in names and a.kwarg is None:
+                return False
+        ndef = len(a.defaults)
+        required = pos[: len(pos) - ndef] if ndef else pos
+        given = set(pos[:npos]) | {k.arg for k in call.keywords}
+        if any(r not in given for r in required):
+            return False
+        for x, d in zip(a.kwonlyargs, a.kw_defaults):
+            if d is None and x.arg not in given:
+                return False
+        return True
+
     def _cha_by_name(self, name: str) -> List[FunctionInfo]:
         out = []
         for c in self.prog.classes.values():
@@ -292,6 +317,9 @@ class CallGraph:
                 return site
             # Any / unknown receiver: CHA by name over the repo, else external by attribute name
             cha = self._cha_by_name(f.attr)
+            # a candidate that cannot take this call's arguments (too many positional arguments, unknown keyword, required parameter left out)
+            # is not a target of it: an untyped `op_key.encrypt(cek, padding)` is not JWEEncModel.encrypt(plaintext, cek, iv, aad)
+            cha = [c for c in cha if self._accepts(c, call)]
             if cha:
                 site.callees = cha
                 site.kind = "cha"
